@@ -51,6 +51,23 @@ MUTATIONS = [
         (".map(|s| s.len() < payload.len())", ".map(|s| s.len() <= payload.len())")]),
     ("M6b-v6-compress-le", "C05", "net/src/protocol.rs", [
         (".map(|s| s.len() < payload.len())", ".map(|s| s.len() <= payload.len())")]),
+    ("M8-v6-decompress-keeps-header", "C06", "net/src/protocol.rs", [
+        ("""        let fake_header = PacketHeader {
+            flags: header.flags & !PACKETFLAG_COMPRESSION,
+            ack: header.ack,
+            num_chunks: header.num_chunks,
+        };
+        buffer.write(fake_header.pack().as_bytes()).unwrap();""",
+         "        buffer.write(&packet[..HEADER_SIZE]).unwrap();")]),
+    ("M8b-v7-decompress-keeps-header", "C06", "net/src/protocol7.rs", [
+        ("""        let fake_header = PacketHeader {
+            flags: header.flags & !PACKETFLAG_COMPRESSION,
+            ack: header.ack,
+            num_chunks: header.num_chunks,
+            token: header.token,
+        };
+        buffer.write(fake_header.pack().as_bytes()).unwrap();""",
+         "        buffer.write(&packet[..HEADER_SIZE]).unwrap();")]),
     ("M7-v6-token-buffer-1024", "C05", "net/src/protocol.rs", [
         ("let mut token_buffer: ArrayVec<[u8; 2048]> = ArrayVec::new();",
          "let mut token_buffer: ArrayVec<[u8; 1024]> = ArrayVec::new();")]),
